@@ -55,6 +55,9 @@ THEOREMS = [
     "OllamaVerif.C03.resume_plan_order_independent",
     "OllamaVerif.C03.glob_order_12",
     "OllamaVerif.C03.malformed_redirect_outcomes",
+    "OllamaVerif.C03.joining_pull_verifies",
+    "OllamaVerif.C03.pull2_joiner_success_verified",
+    "OllamaVerif.C03.concurrent_pull_during_verification_installs_missing_layer",
     "OllamaVerif.C03.stuck_plan_never_recovers",
     "OllamaVerif.C03.challenge_panics_iff",
     "OllamaVerif.C03.challenge_total_fixed",
@@ -65,7 +68,7 @@ THEOREMS = [
     "OllamaVerif.C03.empty_digest_panics",
     "OllamaVerif.C03.size_lie_accepted",
 ]
-FILES = ["zz_verif_c03_test.go", "zz_verif_c03net_test.go", "zz_verif_c03gen_test.go", "zz_verif_c03big_test.go"]
+FILES = ["zz_verif_c03_test.go", "zz_verif_c03net_test.go", "zz_verif_c03gen_test.go", "zz_verif_c03big_test.go", "zz_verif_c03two_test.go"]
 OVERLAY = {"server/" + f: "server/" + f for f in FILES}
 
 
@@ -92,7 +95,7 @@ def crash_site(out):
 def run(ctx):
     ctx.lean_check(MODULES, THEOREMS)
     env = {"VERIF_N": ctx.scale(400, 12000), "VERIF_NCH": ctx.scale(2000, 60000),
-           "VERIF_NPLAN": ctx.scale(40, 2000), "VERIF_CORPUS": os.path.join(core.ROOT, "corpus", "C03")}
+           "VERIF_NPLAN": ctx.scale(40, 2000), "VERIF_NTWO": ctx.scale(40, 1500), "VERIF_CORPUS": os.path.join(core.ROOT, "corpus", "C03")}
     if ctx.replay:
         env["VERIF_REPLAY"] = ctx.replay_line_file()
     # The driver announces every case before it runs.  If the code under test kills the process (a panic on a
